@@ -1436,10 +1436,19 @@ impl<R: Read> Base64Decoder<R> {
         }
         while self.buffer_size + 3 <= self.buffer.len() {
             let mut input = [0u8; 4];
-            let size = self.read.read(&mut input)?;
-            if size == 0 {
+            // the inner reader may return fewer bytes than requested: keep reading
+            // until a full quantum is collected or the end of input is reached
+            let mut filled = 0;
+            while filled < input.len() {
+                let size = self.read.read(&mut input[filled..])?;
+                if size == 0 {
+                    break;
+                }
+                filled += size;
+            }
+            if filled == 0 {
                 break;
-            } else if size != 4 {
+            } else if filled != 4 {
                 return Err(std::io::Error::other(Error::ParseError(
                     "Base64Decoder",
                     "input length is not dividable by 4".to_owned(),
